@@ -25,6 +25,11 @@ Strings travel as `x<hex of the bytes>` (so `x` is the empty string).  Ops:
 * `wreq <port0><blockedIP><blockedHost> <pblock> <req arguments…>` with `<pblock>` = `-` | `<xpid>` (the profile whose
   access list blocks this request): the request through `Wrap`; answers `drop` or what `req` answers
 
+* `wgroup <profiles> <xwildcard>*` a server group of the configuration file (`profiles_enabled`,
+  `tls.device_id_wildcards` as written) · `wsrv <xyamlproto> <linked>` a server of that group with `bind_addresses`
+  (given by `bind a` lines after it): protocol, device domains and profile switch are computed by the model of the
+  conversion (`srvOfConf`)
+
 `<edns>` may hold several OPT records separated by `|` (the last one counts); both addresses are unmapped
 (`::ffff:a.b.c.d` ↦ `a.b.c.d`) before the finder sees them.
 
@@ -62,6 +67,7 @@ structure S where
   create : List (Str × Str × Nat × RawRes) := []
   bylinked : List (IP × RawRes) := []
   byded : List (IP × RawRes) := []
+  wgroup : GroupConf := { profiles := true, wildcards := [] }
 
 def parseProto : String → Proto
   | "dns" => .dns | "dnscrypt" => .dnscrypt | "doh" => .doh | "doq" => .doq | "dot" => .dot
@@ -144,7 +150,12 @@ def step (s : S) : List String → S × String
   | ["bind", "p", ip, single, port] =>
     ({ s with srv := { s.srv with binds := s.srv.binds ++ [.pref ip (bool! single) (nat! port)] } }, "ok")
   | ["dom", d] => ({ s with srv := { s.srv with domains := s.srv.domains ++ [unx d] } }, "ok")
-  | ["dbreset"] => ({ srv := s.srv, profiles := s.profiles }, "ok")
+  | "wgroup" :: profiles :: ws =>
+    ({ s with wgroup := { profiles := bool! profiles, wildcards := ws.map unx } }, "ok")
+  | ["wsrv", proto, linked] =>
+    ({ s with srv := srvOfConf s.wgroup { proto := unx proto, linked := bool! linked, binds := [] },
+              profiles := s.wgroup.profiles }, "ok")
+  | ["dbreset"] => ({ srv := s.srv, profiles := s.profiles, wgroup := s.wgroup }, "ok")
   | "prof" :: pid :: deleted :: devs =>
     ({ s with profs := { id := unx pid, deleted := bool! deleted, devices := devs.map unx } :: s.profs }, "ok")
   | "dev" :: id :: enabled :: dohonly :: rest =>
